@@ -115,11 +115,11 @@ func hstsFromRequireHTTPS(pkg *pkgInfo) ([2]string, error) {
 	sc := ev.newScope(h.env)
 	for _, a := range names {
 		if a != "_" {
-			sc.vars[a] = &variable{&symVal{name: a}}
+			sc.vars[a] = &variable{v: &symVal{name: a}}
 		}
 	}
 	if h.recvName != "" && h.recvName != "_" {
-		sc.vars[h.recvName] = &variable{&symVal{name: h.recvName, typ: h.recvType}}
+		sc.vars[h.recvName] = &variable{v: &symVal{name: h.recvName, typ: h.recvType}}
 	}
 	var found [][2]string
 	for i, st := range h.body.List {
